@@ -36,6 +36,11 @@ func SentinelMiddleware(opts ...Option) fiber.Handler {
 		}
 
 		defer entry.Exit()
-		return ctx.Next()
+		err := ctx.Next()
+		if err != nil {
+			// the handler's error passes through this middleware: record it on the entry
+			sentinel.TraceError(entry, err)
+		}
+		return err
 	}
 }
